@@ -2,7 +2,7 @@
 
 from __future__ import annotations
 
-from execnet import gateway_base as gb, gateway_io
+from execnet import gateway_base as gb, gateway_io, gateway_socket
 
 from vlib import e1
 from vlib.chx import Obligation
@@ -45,25 +45,37 @@ def build(tier):
     obs = [ob(1, 1, 1, 1, t), ob(2, 1, 0, 1, t), ob(0, 2, 1, 0, t), ob(1, 0, 2, 2, t)]
     if thorough:
         obs += [ob(2, 2, 2, 2, t), ob(3, 1, 1, 2, t), ob(1, 2, 4, 1, t)]
+    # socket vs pipe: the frames one adapter writes are read back identically by the other one, for every chunking of the stream
+    # (differential form of C08's round trip; the same-adapter round trips are C08's)
+    from props import c08
+
+    for tw, tr in (("popen", "socket"), ("socket", "popen")):
+        obs.append(c08.rt_ob(tw, tr, 1, 2, 3, False, t))
+        obs.append(c08.rt_ob(tw, tr, 2, 1, 3 if thorough else 2, False, t))
+        if thorough:
+            obs.append(c08.rt_ob(tw, tr, 1, 4, 5, False, t))
     return obs
 
 
 def signature(o, cex, detail):
-    return f"C16:proxy:{detail.split(':')[0]}"
+    return f"C16:{'proxy' if o.name.startswith('proxy') else o.name.split('_')[1]}:{detail.split(':')[0]}"
 
 
 def run(tier: str) -> Outcome:
     fns = describe_functions([gateway_io.ProxyIO, gateway_io.serve_proxy_io, gb.ChannelFileRead.read, gb.ChannelFileWrite.write, gb.Message.from_io, gb.Message.to_io,
-                               gb.Channel.setcallback, gb.Channel.send, gb.Channel.receive])
+                               gb.Channel.setcallback, gb.Channel.send, gb.Channel.receive,
+                               gateway_socket.SocketIO.read, gateway_socket.SocketIO.write, gb.Popen2IO.read, gb.Popen2IO.write])
     return e1.run_e1(
         "C16", tier, build(tier), signature, fns,
         stubs=[
+            "socket <-> pipe obligations: FakeSocket (recv returns symbolic-size chunks, sendall records) and PipeFile stand-ins for the OS objects",
             "gateway_io.create_io -> ScriptedSubIO (the proxied process's IO: scripted byte stream with symbolic chunking, recording write/wait/kill/close_write)",
             "master and forwarder are real gateways; the frames one of them sends are handed to the other's message handlers (Message.received under the receive "
             "lock) as its receiver loop would after decoding - the byte framing on the pipe between them is C08's subject",
             "opaque rendering of symbolic ints in messages; gateway_base's stderr swallowed",
         ],
         bounds=("0-2 (thorough 3) messages written by the proxied process, each a symbolic choice from a 5-entry catalogue (extreme type bytes and channel ids, binary payloads with NUL/0xff/newlines), "
+                "socket<->pipe cross round trip: 1-2 symbolic messages (payload <= 2 bytes; thorough 4), 2-3 (thorough 5) symbolic chunk boundaries; "
                 "0-2 byte strings written by the master (len<=3), one control request with the code symbolic over WAIT/KILL/REMOTEADDRESS/CLOSE_WRITE, symbolic chunking of "
                 "the forwarder's first reads from the sub"),
         outside=["'identical transcripts of arbitrary channel programs on real popen/socket/via gateways x exec models' is a whole-system statement: what is decided here is "
